@@ -226,4 +226,43 @@ theorem c06_real_position (tc rest : List Nat) : ∀ (p : Nat), p < tc.sum →
 example : pieces [3, 3] [2, 3, 1] = [⟨0, 2, 0, 0⟩, ⟨2, 1, 0, 1⟩, ⟨3, 2, 1, 1⟩, ⟨5, 1, 1, 2⟩] := by decide
 example : lostByPieces [3, 3] [2, 3, 1] (fun k => k != 1) 6 = [false, false, true, true, true, false] := by decide
 
+/-! ### element level -/
+
+/-- a statement about every byte follows from its 256 instances (discharged by `decide +kernel`) -/
+theorem u8_forall (P : UInt8 → Prop) (h : ∀ k : Fin 256, P (UInt8.ofNat k.val)) : ∀ x : UInt8, P x := by
+  intro x
+  have := h ⟨x.toNat, x.toNat_lt⟩
+  simpa using this
+
+/-- **Visibilities and weights are zero exactly on the elements covered by their own missing
+    chunks, every other element equals what was stored** -/
+theorem c06_value {α} (zero : α) (lost : Bool) (stored : α) :
+    (lost = true → loadValue zero lost stored = zero) ∧ (lost = false → loadValue zero lost stored = stored) := by
+  cases lost <;> simp [loadValue]
+
+/-- **The data_lost bit is set exactly on the elements covered by a missing chunk of any of the
+    arrays** (for stored flags that do not carry the bit themselves), for every stored byte -/
+theorem c06_data_lost_bit (stored : UInt8) (lv lw lc lf : Bool) (hclear : stored &&& dataLost = 0) :
+    (loadFlags stored lv lw lc lf &&& dataLost ≠ 0) ↔ (lv || lw || lc || lf) = true := by
+  revert stored lv lw lc lf
+  apply u8_forall
+  decide +kernel
+
+/-- **Every other flag bit equals what was stored** (zero where the flags chunk itself is missing),
+    for every stored byte and every combination of missing arrays -/
+theorem c06_other_bits (stored : UInt8) (lv lw lc lf : Bool) :
+    loadFlags stored lv lw lc lf &&& ~~~dataLost = (if lf then 0 else stored) &&& ~~~dataLost := by
+  revert stored lv lw lc lf
+  apply u8_forall
+  decide +kernel
+
+/-- nothing is lost ⇒ the stored byte comes back unchanged -/
+theorem c06_nothing_lost (stored : UInt8) : loadFlags stored false false false false = stored := by
+  revert stored
+  apply u8_forall
+  decide +kernel
+
+example : loadFlags 0x81 false false true false = 0x89 := by decide
+example : loadFlags 0x81 false false false true = 0x08 := by decide
+
 end C06
